@@ -266,6 +266,21 @@ def bounded(arg):
         evaluations += 1
         if got != 'failing':
             record('error operand does not count as failing', name, '%s(<exception>, 5)' % name, 'failing', got, repr(exc) if exc else '')
+    # regular expressions: the pattern may be the proxied result of student code as well
+    import re as _re
+    for pattern in ('a+', '^c', 'x$', '[0-9]+'):
+        for text in ('caat', 'xyz', 'b12x', ''):
+            found = _re.search(pattern, text) is not None
+            for wrap in wraps2:
+                outcomes = []
+                for fn_name in ('assert_regex', 'assert_not_regex'):
+                    got, exc = run_assert(fn_name, (pattern, text), wrap)
+                    outcomes.append(got)
+                    evaluations += 1
+                want = ['silent', 'failing'] if found else ['failing', 'silent']
+                if outcomes != want:
+                    record('regex verdict differs from re.search' + (' [proxied operand]' if wrap != (False, False) else ''),
+                           'assert_regex', 'pattern %r text %r wrap %r' % (pattern, text, wrap), want, outcomes)
     # output containment: exact, or "only lowercased" as documented - and the negated check is its complement
     from pedal.core.commands import contextualize_report as _ctx
     from pedal.sandbox.commands import run as _run, get_sandbox as _get_sandbox, clear_sandbox as _clear_sb
